@@ -108,6 +108,9 @@ func TestVerifReplay(t *testing.T) {
 				break
 			}
 		}
+	case "storeconc":
+		res.Tried = 1
+		report(map[string]string{"scenario": "Merge(64 keys) racing Set on an empty store; Clear racing GetAll; 20000 rounds"}, runStoreConcurrent())
 	case "value":
 		for i := range valueCatalogue() {
 			res.Tried++
@@ -964,6 +967,7 @@ type btScenario struct {
 	FbFails     bool   `json:"fallback_fails"`
 	WaitMs      int    `json:"wait_ms"`
 	SlowMs      int    `json:"slow_failing_attempt_ms"`
+	Gate        string `json:"gate"` // "" | max-first | min-first: every exec attempt parks until a controller releases it; the controller releases the in-flight attempt with the highest / lowest item index once no new attempt arrives
 }
 
 func batchScenarios() []btScenario {
@@ -997,6 +1001,16 @@ func batchScenarios() []btScenario {
 			}
 		}
 	}
+	for _, gate := range []string{"max-first", "min-first"} {
+		for _, stop := range []bool{false, true} {
+			for _, c := range []int{2, 3} {
+				out = append(out, btScenario{Items: 3, Concurrency: c, Stop: stop, Retries: 1, Fail: []int{9, 0, 0}, Payload: "results", CancelIn: -1, ErrResult: -1, Gate: gate},
+					btScenario{Items: 4, Concurrency: c, Stop: stop, Retries: 1, Fail: []int{0, 0, 9, 0}, Payload: "results", CancelIn: -1, ErrResult: -1, Gate: gate},
+					btScenario{Items: 2, Concurrency: c, Stop: stop, Retries: 3, Fail: []int{1, 9}, Payload: "results", CancelIn: -1, ErrResult: -1, Gate: gate},
+					btScenario{Items: 3, Concurrency: c, Stop: stop, Retries: 2, Fail: []int{1, 9, 1}, Fallback: true, Payload: "results", CancelIn: -1, ErrResult: -1, Gate: gate})
+			}
+		}
+	}
 	out = append(out, btScenario{Items: 0, Payload: "nil", CancelIn: -1, ErrResult: -1, Retries: 1}, btScenario{Items: 1, Payload: "single", CancelIn: -1, ErrResult: -1, Retries: 1, Fail: []int{0}},
 		btScenario{Items: 0, Payload: "results", CancelIn: -1, ErrResult: -1, Retries: 1, PostAction: "custom"})
 	return out
@@ -1016,6 +1030,40 @@ func runBatchScenario(sc btScenario, prop string) string {
 		type span struct{ start, end time.Time }
 		spans := map[int][]span{}
 		fbErr := errors.New("fallback-could-not-recover")
+		type parked struct {
+			item int
+			ch   chan struct{}
+		}
+		arrivals := make(chan parked, 64)
+		finished := make(chan struct{})
+		if sc.Gate != "" {
+			go func() {
+				var waiting []parked
+				for {
+					select {
+					case p := <-arrivals:
+						waiting = append(waiting, p)
+					case <-finished:
+						for _, p := range waiting {
+							close(p.ch)
+						}
+						return
+					case <-time.After(25 * time.Millisecond):
+						if len(waiting) == 0 {
+							continue
+						}
+						pick := 0
+						for k, p := range waiting {
+							if (sc.Gate == "max-first" && p.item > waiting[pick].item) || (sc.Gate == "min-first" && p.item < waiting[pick].item) {
+								pick = k
+							}
+						}
+						close(waiting[pick].ch)
+						waiting = append(waiting[:pick], waiting[pick+1:]...)
+					}
+				}
+			}()
+		}
 		var prepItems []Result
 		for i := 0; i < sc.Items; i++ {
 			prepItems = append(prepItems, NewResult(i))
@@ -1066,6 +1114,11 @@ func runBatchScenario(sc btScenario, prop string) string {
 			if sc.CancelIn == i && k == 1 {
 				cancel()
 			}
+			if sc.Gate != "" {
+				ch := make(chan struct{})
+				arrivals <- parked{i, ch}
+				<-ch
+			}
 			if i < len(sc.Fail) && k <= sc.Fail[i] {
 				if sc.SlowMs > 0 {
 					time.Sleep(time.Duration(sc.SlowMs) * time.Millisecond)
@@ -1096,6 +1149,7 @@ func runBatchScenario(sc btScenario, prop string) string {
 			return Action(sc.PostAction), nil
 		})
 		act, err := Run(ctx, b, NewSharedStore())
+		close(finished)
 		cancelled := sc.CancelIn >= 0
 		if wants(prop, "C18") && err == nil && act == "" {
 			return "C18: successful batch run returned the empty action"
@@ -1346,6 +1400,61 @@ func runStoreOps(seed int) string {
 					if got, ok := s.m[kk]; !ok || !reflect.DeepEqual(got, vv) {
 						return fmt.Sprintf("C14: a GetAll snapshot changed after later store updates (key %q)", kk)
 					}
+				}
+			}
+		}
+		return ""
+	})
+}
+
+// ------------------------------------------------------------------ store under concurrency (C13), stress only
+
+func runStoreConcurrent() string {
+	return guard(func() string {
+		batch := map[string]any{}
+		for i := 0; i < 64; i++ {
+			batch[fmt.Sprintf("m%d", i)] = i
+		}
+		for round := 0; round < 20000; round++ {
+			st := NewSharedStore()
+			var wg sync.WaitGroup
+			wg.Add(2)
+			go func() { defer wg.Done(); st.Merge(batch) }()
+			go func() { defer wg.Done(); st.Set("x", round) }()
+			wg.Wait()
+			// both operations completed: any sequential order of them leaves all 65 keys
+			if n := st.Len(); n != 65 || !st.Has("x") {
+				return fmt.Sprintf("C13: after Merge(64 keys) and Set(\"x\") both returned the store has %d keys, Has(x)=%v: no sequential order of the two explains it (round %d)", n, st.Has("x"), round)
+			}
+			if round%50 == 0 {
+				// a reader never observes part of a Merge or a half-cleared store
+				stop := make(chan struct{})
+				bad := make(chan string, 1)
+				go func() {
+					for {
+						select {
+						case <-stop:
+							return
+						default:
+						}
+						if n := len(st.GetAll()); n != 0 && n != 65 && n != 64 && n != 1 {
+							select {
+							case bad <- fmt.Sprintf("C13: a reader observed %d keys while Clear and Merge of 64 keys were running", n):
+							default:
+							}
+							return
+						}
+					}
+				}()
+				for k := 0; k < 20; k++ {
+					st.Clear()
+					st.Merge(batch)
+				}
+				close(stop)
+				select {
+				case m := <-bad:
+					return m
+				default:
 				}
 			}
 		}
